@@ -40,3 +40,91 @@ Proof.
   apply andb_prop in H. destruct H as [H1 H2]. split; [exact (nodupb_sound _ H1)|].
   apply Nat.leb_le. exact H2.
 Qed.
+
+(* ---- in general: [build] hands out fresh column numbers, so the ids of a tree are distinct ---- *)
+Definition cols_in (lo hi : positive) (l : list positive) : Prop :=
+  (forall c, In c l -> (lo <= c < hi)%positive) /\ NoDup l.
+
+Lemma cols_in_nil : forall lo hi, cols_in lo hi [].
+Proof. intros. split; [intros c []|constructor]. Qed.
+
+Lemma cols_in_app : forall lo mid hi a b, (lo <= mid)%positive -> (mid <= hi)%positive ->
+  cols_in lo mid a -> cols_in mid hi b -> cols_in lo hi (a ++ b).
+Proof.
+  intros lo mid hi a b H1 H2 [Ha Hna] [Hb Hnb]. split.
+  - intros c Hc. apply in_app_or in Hc. destruct Hc as [Hc|Hc]; [specialize (Ha c Hc)|specialize (Hb c Hc)]; lia.
+  - induction a as [|x a IH]; [exact Hnb|]. cbn [app]. inversion Hna; subst. constructor.
+    + intros Hin. apply in_app_or in Hin. destruct Hin as [Hin|Hin]; [contradiction|].
+      specialize (Ha x (or_introl eq_refl)). specialize (Hb x Hin). lia.
+    + apply IH; [intros c Hc; apply Ha; right; exact Hc|assumption].
+Qed.
+
+Lemma cols_in_cons : forall lo hi l, cols_in (Pos.succ lo) hi l -> (Pos.succ lo <= hi)%positive ->
+  cols_in lo hi (lo :: l).
+Proof.
+  intros lo hi l H Hle. change (lo :: l) with ([lo] ++ l).
+  apply (cols_in_app lo (Pos.succ lo) hi); [lia|exact Hle| |exact H].
+  split; [intros c [<-|[]]; lia|constructor; [intros []|constructor]].
+Qed.
+
+Lemma field_count_next : forall st sid own, i_next (snd (field_count st sid own)) = i_next st.
+Proof.
+  intros. unfold field_count. destruct (memo_find (i_memo st) sid); [reflexivity|].
+  destruct (i_over st) as [[|c r]|]; reflexivity.
+Qed.
+
+Lemma build_cols : forall sc f stack ty st,
+  (i_next st <= i_next (snd (build sc f stack ty st)))%positive /\
+  cols_in (i_next st) (i_next (snd (build sc f stack ty st))) (tree_cols (fst (build sc f stack ty st))).
+Proof.
+  intros sc. induction f as [|f IH]; intros stack ty st.
+  - cbn [build fst snd set_err i_next tree_cols]. split; [lia|apply cols_in_nil].
+  - cbn [build]. destruct (on_stack stack (key_of ty)).
+    { cbn [fst snd tree_cols]. split; [lia|apply cols_in_nil]. }
+    unfold fresh_col.
+    set (st1 := mkIst (Pos.succ (i_next st)) (i_over st) (i_memo st) (i_err st)).
+    assert (Hn1 : i_next st1 = Pos.succ (i_next st)) by reflexivity.
+    destruct ty as [p d|e|s|m].
+    + cbn [fst snd tree_cols]. rewrite Hn1. split; [lia|].
+      apply cols_in_cons; [apply cols_in_nil|lia].
+    + destruct (IH (key_of (TArray e) :: stack) e st1) as [Hle Hin].
+      destruct (build sc f (key_of (TArray e) :: stack) e st1) as [et st2].
+      cbn [fst snd tree_cols] in *. rewrite Hn1 in *. split; [lia|].
+      apply cols_in_cons; [exact Hin|exact Hle].
+    + pose proof (field_count_next st1 s (N.of_nat (length (s_fields (get_struct sc s))))) as Hfc.
+      destruct (field_count st1 s (N.of_nat (length (s_fields (get_struct sc s))))) as [fc st2].
+      cbn [snd] in Hfc.
+      set (st3 := if N.of_nat (length (s_fields (get_struct sc s))) <? fc then set_err st2 else st2).
+      assert (Hn3 : i_next st3 = Pos.succ (i_next st)).
+      { unfold st3. destruct (_ <? fc); cbn [set_err i_next]; congruence. }
+      assert (Hfold : forall fl (acc : list etree * istate),
+                let res := fold_left (fun (acc : list etree * istate) (fl : field) =>
+                             let '(l, st) := acc in
+                             let '(ft, st) := build sc f (KStruct s :: stack) (f_type fl) st in (l ++ [ft], st)) fl acc in
+                (i_next (snd acc) <= i_next (snd res))%positive /\
+                exists l2, fst res = fst acc ++ l2 /\
+                           cols_in (i_next (snd acc)) (i_next (snd res)) (flat_map tree_cols l2)).
+      { induction fl as [|x fl IHf]; intros acc; cbn [fold_left].
+        - split; [lia|]. exists []. rewrite app_nil_r. split; [reflexivity|apply cols_in_nil].
+        - destruct acc as [l s0].
+          destruct (IH (KStruct s :: stack) (f_type x) s0) as [Hle Hin].
+          destruct (build sc f (KStruct s :: stack) (f_type x) s0) as [ft s1].
+          cbn [fst snd] in Hle, Hin.
+          destruct (IHf (l ++ [ft], s1)) as [Hle2 [l2 [Hl2 Hin2]]]. cbn [fst snd] in *.
+          split; [lia|]. exists (ft :: l2). rewrite Hl2, <- app_assoc. split; [reflexivity|].
+          cbn [flat_map]. apply (cols_in_app _ (i_next s1)); assumption. }
+      match goal with |- context [fold_left ?F ?L ?A] =>
+        specialize (Hfold L A); cbv zeta in Hfold; destruct (fold_left F L A) as [fts st4] end.
+      cbn [fst snd app] in *. destruct Hfold as [Hle [l2 [-> Hin]]]. rewrite Hn3 in *.
+      split; [lia|]. apply cols_in_cons; [exact Hin|exact Hle].
+    + destruct (IH (KMap m :: stack) (m_key (get_mmap sc m)) st1) as [Hle1 Hin1].
+      destruct (build sc f (KMap m :: stack) (m_key (get_mmap sc m)) st1) as [kt st2].
+      destruct (IH (KMap m :: stack) (m_val (get_mmap sc m)) st2) as [Hle2 Hin2].
+      destruct (build sc f (KMap m :: stack) (m_val (get_mmap sc m)) st2) as [vt st3].
+      cbn [fst snd tree_cols] in *. rewrite Hn1 in *. split; [lia|].
+      apply cols_in_cons; [|lia]. apply (cols_in_app _ (i_next st2)); assumption.
+Qed.
+
+(* any schema, any root, with or without a wire-schema override *)
+Theorem build_root_nodup : forall sc root over, NoDup (tree_cols (fst (build_root sc root over))).
+Proof. intros. unfold build_root. apply (proj2 (proj2 (build_cols sc _ _ _ _))). Qed.
